@@ -33,6 +33,9 @@ SINGLE = {"points_board": ("point_state", "board."), "points_dcc": ("point_state
           "reversers": ("reverser_state", "data."), "trains": ("train_state", "data."),
           "booster": ("booster_state", "data."), "track_outputs": ("track_output_state", "")}
 FLAGS = ("known", "available", "known_and_connected")
+# single-value getters of a train: (member of their result, member of the snapshot's train record)
+SCALAR_OF = {"train_speed_kmh": (("speed_kmh", "data.detected_kmh_speed"),), "train_speed_step": (("speed_step", "data.set_speed_step"), ("is_forwards", "data.set_is_forwards")),
+             "train_on_track": (("result", "data.on_track"),)}
 
 def hx(s): return "".join("%02x" % c for c in s.encode()) or "-"
 
@@ -165,6 +168,12 @@ def gen_mutations(r, info, conn, n):
     """n state changes through the library's setters; conn: board index -> node address (top byte) when connected"""
     out = []
     B = info["boards"]
+    if not conn and B and r.chance(3, 4):
+        for bi, b in enumerate(B):
+            if r.chance(3, 4): conn[bi] = bi + 1; out.append("c17mut new 000000%02x%s" % (bi + 1, b["uid"]))
+    if r.chance(2, 3):
+        for t in info["trains"]:
+            out.append("c17mut speed %02x%02x00%02x%02x" % (t["dcc"][0], t["dcc"][1], r.below(256), r.choice([0, 0x7F, 0x80, 0x9C, 0xFF])))
     if conn and r.chance(2, 3):
         # every connected board reports a KNOWN state for each of its entities (mapped aspects: values 0.. in the generated
         # configurations; reverser cv 30051): the results then hold known state ids, which is where copies can alias
@@ -175,6 +184,9 @@ def gen_mutations(r, info, conn, n):
             for num in b["accnum"]: out.append("c17mut acc %s%02x%02x%02x%02x%02x" % (a, num, r.below(2), 3, r.choice([0, 1]), 0))
             for d in b["dccacc"]: out.append("c17mut csacc %s%02x%02x00%02x%02x" % (a, d[0], d[1], r.below(2), 0))
             for g in b["segnum"][:2]: out.append("c17mut occ %s%02x%02x" % (a, g, 1))
+            if b["segnum"] and info["trains"]:            # every train is somewhere (the speed getters answer for trains on track)
+                ts = info["trains"][:3]
+                out.append("c17mut addr %s%02x%02x%s" % (a, b["segnum"][0], len(ts), "".join("%02x%02x" % (t["dcc"][0], (t["dcc"][1] & 0x3f) | (r.choice([0, 2]) << 6)) for t in ts)))
     for _ in range(n):
         k = r.below(100)
         if not B: break
@@ -216,7 +228,7 @@ def gen_mutations(r, info, conn, n):
             out.append("c17mut addr %s%02x%02x%s" % (a, r.choice(b["segnum"]), cnt, data))
         elif k < 94 and b["segnum"]: out.append("c17mut cur %s%02x%02x" % (a, r.choice(b["segnum"]), r.choice([0, 1, 15, 16, 100, 254, 255])))
         elif k < 97 and info["trains"]:
-            t = r.choice(info["trains"])["dcc"]; out.append("c17mut speed %02x%02x00%02x%02x" % (t[0], t[1], r.below(256), r.below(2)))
+            t = r.choice(info["trains"])["dcc"]; out.append("c17mut speed %02x%02x00%02x%02x" % (t[0], t[1], r.below(256), r.choice([0, 1, 0x7F, 0x80, 0x9C, 0xFF, r.below(256)])))   # the whole 16-bit range
         elif info["trains"]:
             t = r.choice(info["trains"])["dcc"]; out.append("c17mut dyn %02x%02x00%02x%02x" % (t[0], t[1], r.range(1, 6), r.below(256)))
     return out
@@ -229,7 +241,8 @@ def gen_gets(r, info, full):
     for g, cat in STRG.items():
         known = info[cat]
         pick = known if (full or len(known) <= 2) else [r.choice(known) for _ in range(2)]
-        if g in ("point_state", "signal_state", "peripheral_state", "segment_state", "reverser_state", "train_state", "booster_state", "track_output_state"):
+        if g in ("point_state", "signal_state", "peripheral_state", "segment_state", "reverser_state", "train_state", "booster_state", "track_output_state",
+                 "train_speed_kmh", "train_speed_step", "train_on_track"):
             pick = known            # needed by the snapshot oracle
         for i in dict.fromkeys(pick): L.append("c17get %s s:%s" % (g, i))
         others = [i for i in info["all"] if i not in known]
@@ -322,6 +335,8 @@ def merge_runs(outs):
                     if va in PATTERNS and vb == 0: lines.append("s %s undef" % t[1])
                     else:
                         if vb is not None and vb != va: unstable.append(t[1])
+                        sz = int(t[2])            # negative: member of a signed integer type (values stay raw here; see signed_value)
+                        if sz < 0: SIGNED_SIZE[(e["hdr"].split()[0], depath(t[1]))] = -sz
                         lines.append("s %s %d" % (t[1], va))
                 else: lines.append(" ".join(t))
             if e["end"] is not None:
@@ -340,6 +355,12 @@ def merge_runs(outs):
             if t and t[0] == "recheck" and t[1] != "done": lines.append(" ".join(t[:3]))
             else: lines.append(e["l"])
     return lines, stblocks, unstable, problems
+
+SIGNED_SIZE = {}      # (getter, member path without indices) -> byte size, for members of a signed integer type
+def signed_value(getter, member, raw):
+    """the value of a scalar member as its C type holds it (raw = unsigned little-endian value of its bytes)"""
+    n = SIGNED_SIZE.get((getter, depath(member))); v = int(raw)
+    return v - (1 << (8 * n)) if n and v >= 1 << (8 * n - 1) else v
 
 def strip_kind(l): return l.split(" #")[0]
 
@@ -472,7 +493,7 @@ def oracle(ev, info):
         if strip_kind(e["end"]) == "free fault":
             V.append(("getter.%s.%s.free-fault" % (g, cls), {"call": e["hdr"], "argument_class": ac, "observed": e["end"], "members": e["m"][:8], "point": e["point"], "gi": [e["gi"]]}))
         if g == "state": snaps[e["point"]] = e
-        elif g in G_KINDS: singles[(e["point"], e["hdr"])] = e
+        elif g in G_KINDS or g in SCALAR_OF: singles[(e["point"], e["hdr"])] = e
     # snapshot vs single-entity getters at the same point
     for point, sn in snaps.items():
         ent = {}
@@ -496,6 +517,18 @@ def oracle(ev, info):
                 got = sv.get((k, pre + name))
                 if got != v and got != "undef":
                     V.append(("snapshot.%s.%s.mismatch" % (arr, depath(name)), {"point": point, "entity": idv[0], "member": n, "snapshot": v, "single_getter": got, "call": sg["hdr"], "gi": [sn["gi"], sg["gi"]]}))
+            # the single-value getters of the same entity (speed in km/h, speed step, on track): same values as the snapshot member
+            if arr == "trains":
+                snv = {n: v for (k, n, v) in ms}
+                for getter2, pairs in SCALAR_OF.items():
+                    s2 = singles.get((point, "%s s:%s" % (getter2, idv[0])))
+                    if s2 is None: continue
+                    gv = {m.split()[1]: " ".join(m.split()[2:]) for m in s2["m"]}
+                    avail = gv.get("known_and_avail", "1 1").split()[-1] == "1"      # member lines carry "<size> <value>"
+                    for gm, sm in pairs:
+                        if not avail or gm not in gv or sm not in snv or "undef" in (gv[gm], snv[sm]): continue
+                        if signed_value(getter2, gm, gv[gm].split()[-1]) != signed_value("state", "trains[0]." + sm, snv[sm].split()[-1]):
+                            V.append(("snapshot.trains.%s.mismatch-with-%s" % (depath(sm), getter2), {"point": point, "entity": idv[0], "member": sm, "snapshot": snv[sm], "single_getter": gv[gm], "call": s2["hdr"], "gi": [sn["gi"], s2["gi"]]}))
     return V
 
 # ------------------------------------------------------------------ the check
